@@ -67,9 +67,12 @@ def spell(rng, lang, d, today, force_year=False):
     return '%s %d, %d' % (name, d.day, d.year), f
 
 
-def expected_print(lang, d, today, zone='UTC'):
+CUSTOM_DATE_FORMATS = ['{day_pad}/{month_pad}/{year}', '{year}-{month_pad}-{day_pad}', '{day}.{month}.{year}', '{month_long} {day_pad}, {year}', '{day} {month_short} {year} ({month_pad})']
+
+
+def expected_print(lang, d, today, zone='UTC', fmts=None):
     """set of acceptable printed forms"""
-    fmts = lex.date_formats(lang)
+    fmts = fmts or lex.date_formats(lang)
     fmt = fmts['current_year'] if d.year == today.year else fmts['full_date']
     long_, short = lex.print_months(lang)
     outs = set()
@@ -246,7 +249,18 @@ def run_shard(ctx):
                     continue
                 w = rng.choice(words[unit])
                 sign = rng.choice([1, -1])
-                text = '%s %s %d %s' % (text, op_spelling(rng, lang, sign), n, w)
+                if unit == 'month' and rng.random() < 0.3:
+                    # the span written in pieces that add up to at most twelve months (30 days each): side by side, or through a name
+                    n = rng.randint(2, 12)
+                    a_ = rng.randint(1, n - 1)
+                    if rng.random() < 0.6:
+                        text = '%s %s %d %s %d %s' % (text, op_spelling(rng, lang, sign), a_, w, n - a_, rng.choice(words[unit]))
+                    elif n % 2 == 0:
+                        text = 'zq = %d %s\n%s %s (zq + zq)' % (n // 2, w, text, '+' if sign > 0 else '-')
+                    else:
+                        text = 'zq = %d %s\nwv = %d %s\n%s %s (zq + wv)' % (a_, w, n - a_, rng.choice(words[unit]), text, '+' if sign > 0 else '-')
+                else:
+                    text = '%s %s %d %s' % (text, op_spelling(rng, lang, sign), n, w)
                 try:
                     if unit == 'day':
                         want = d + datetime.timedelta(days=sign * n)
@@ -348,7 +362,14 @@ def run_shard(ctx):
                     off = {'today': 0, 'tomorrow': 1, 'yesterday': -1}[k]
                     meta.append((lang, rng.choice(dw[k]), 'day-words', ('date', today + datetime.timedelta(days=off))))
         items = [(m[0], m[1]) for m in meta]
-        rs = mon.run_lines(drv, cfg, items)
+        # one batch in ten on a calculator built from the configuration text with other date formats (every placeholder the formatter knows)
+        custom = None
+        if rng.random() < 0.1:
+            f_ = rng.choice(CUSTOM_DATE_FORMATS)
+            custom = {'full_date': f_, 'current_year': f_}
+            res.count('batches_with_date_formats_of_an_edited_configuration_text')
+        rs = mon.run_lines(drv, cfg, items, config_edits=None if custom is None else
+                           [['/languages/%s/format/date/%s' % (l_, k_), v_] for l_ in langs for k_, v_ in custom.items()])
         for (lang, text, cls, exp), r in zip(meta, rs):
             slot = mon.last_slot(r) if '\n' in text else mon.slot0(r)
             res.cases += 1
@@ -411,7 +432,7 @@ def run_shard(ctx):
                             if (exp[2].month - n_months % 12) <= 0 and got == add_months(want, 12):
                                 sig = 'date:month-subtraction-loses-year-borrow'
                     else:
-                        outs = expected_print(lang, want, today, dz)
+                        outs = expected_print(lang, want, today, dz, custom)
                         if slot['out'] not in outs:
                             problem = '%s prints %r, expected %s' % (want, slot['out'], sorted(outs))
                             sig = 'date:print:%s' % lang
